@@ -542,10 +542,14 @@ class BasePeripheralsImpl:
         if self.cur_segment == 0 and offset == 0x417:
             return self.misc_get_control_keys()
         else:
+            if self.cur_segment is not None:
+                cur_segment = f'{self.cur_segment:04x}'
+            else:
+                cur_segment = 'default_segment'
             raise DeviceError(
                 error_code=Device.Error.BAD_ARG_VALUE,
                 error_msg=(
-                    f'Cannot read memory at: {self.cur_segment:04x}:'
+                    f'Cannot read memory at: {cur_segment}:'
                     f'{offset:04x}'
                 ),
             )
